@@ -69,7 +69,7 @@ def run(c):
 
     def gen(kind):
         try:
-            if c.thorough:
+            if c.thorough and kind != "n":
                 results["mc" + kind] = c.mc("SegDB", "SegDBMC.%s.thorough.cfg" % kind, workers=6, timeout=2400)
             results[kind] = c.mc("SegDB", "SegDBGen.%s.%s.cfg" % (kind, c.tier), workers=6, timeout=2400)
         except Exception as e:     # re-raised in the main thread
@@ -102,7 +102,7 @@ def run(c):
         except Exception as e:
             errs.append(e)
 
-    ths = [threading.Thread(target=gen, args=(k,)) for k in ("p", "b")] + [threading.Thread(target=rel),
+    ths = [threading.Thread(target=gen, args=(k,)) for k in ("p", "b", "n")] + [threading.Thread(target=rel),
                                                                            threading.Thread(target=concurrent)]
     for t in ths:
         t.start()
@@ -121,6 +121,8 @@ def run(c):
             scn = os.path.join(c.scratch, "scn-%s.ndjson" % kind)
             with open(scn, "w") as f:
                 results["n" + kind] = scenarios(results[kind].out, kind, f)
+                if kind == "p":     # the next-query-only histories (all keys differing in one component)
+                    results["n" + kind] += scenarios(results["n"].out, "p", f)
             trace = os.path.join(c.scratch, "segdb-%s.ndjson" % kind)
             c.run_driver(drv, ["-scn", scn, "-kind", kind, "-n", nrand, "-len", 40 if c.thorough else 25,
                                "-q", 2, "-out", trace] + (["-obsall"] if c.thorough else []), timeout=3000)
